@@ -18,6 +18,70 @@ def need(rel, pattern, what):
 def num(s):
     return int(s.replace("_", ""))
 
+def f64bits(lit):
+    """bit pattern of the f64 that rustc reads from a decimal literal (correctly rounded, as Python's float())"""
+    import struct
+    return struct.unpack("<Q", struct.pack("<d", float(lit.replace("_", ""))))[0]
+
+def float_consts():
+    """f64 literals of the float store, as bit patterns (Z): FloatInterval::new step ladder,
+    precision table, tolerances of FloatInterval and of Context::try_set_min/max."""
+    out = []
+    FI = "src/variables/domain/float_interval.rs"
+    VW = "src/variables/views.rs"
+    UL = "src/optimization/ulp_utils.rs"
+    F = r"([0-9][0-9_]*\.?[0-9_]*(?:e-?[0-9]+)?)"
+    m = need(FI, r"pub fn new\(min: f64, max: f64\) -> Self \{(.*?)FloatInterval \{ min, max, step \}", "FloatInterval::new body")
+    body = m.group(1)
+    thr = re.findall(r"domain_range >= " + F, body)
+    if len(thr) != 6:
+        sys.stderr.write("gen_consts: FloatInterval::new ladder: expected 6 thresholds, found %r\n" % (thr,)); sys.exit(1)
+    for i, t in enumerate(thr):
+        out.append(("fi_new_thr%d_bits" % i, f64bits(t), "float_interval.rs new: domain_range >= %s" % t))
+    m = need(FI, r"domain_range / " + F, "FloatInterval::new divisor")
+    out.append(("fi_new_div_bits", f64bits(m.group(1)), "float_interval.rs new: domain_range / %s" % m.group(1)))
+    steps = re.findall(r"\{\s*(?://[^\n]*\n\s*)?" + F + r"\s*//", body)
+    if len(steps) != 6:
+        sys.stderr.write("gen_consts: FloatInterval::new ladder: expected 6 fixed steps, found %r\n" % (steps,)); sys.exit(1)
+    for i, t in enumerate(steps):
+        out.append(("fi_new_step%d_bits" % (i + 1), f64bits(t), "float_interval.rs new: step %s" % t))
+    tab = re.findall(r"^\s*(\d+) => (1e-\d+),", src(FI), re.M)
+    if [int(a) for a, _ in tab] != list(range(1, 13)):
+        sys.stderr.write("gen_consts: precision_to_step_size table changed: %r\n" % (tab,)); sys.exit(1)
+    for a, t in tab:
+        out.append(("prec_step_%s_bits" % a, f64bits(t), "float_interval.rs precision_to_step_size %s => %s" % (a, t)))
+    m = need(FI, r"_ => (1e-\d+), // Default fallback", "precision_to_step_size fallback")
+    out.append(("prec_step_default_bits", f64bits(m.group(1)), "float_interval.rs precision_to_step_size _ => %s" % m.group(1)))
+    n = len(re.findall(r"let tolerance = self\.step / 2\.0;", src(FI)))
+    if n != 3:
+        sys.stderr.write("gen_consts: expected 3 `self.step / 2.0` tolerances in float_interval.rs, found %d\n" % n); sys.exit(1)
+    out.append(("fi_tol_div_bits", f64bits("2.0"), "float_interval.rs contains/remove_below/remove_above: self.step / 2.0"))
+    n = len(re.findall(r"self\.max = self\.min - 1\.0;", src(FI)))
+    if n != 4:
+        sys.stderr.write("gen_consts: expected 4 `self.max = self.min - 1.0` in float_interval.rs, found %d\n" % n); sys.exit(1)
+    out.append(("fi_empty_sub_bits", f64bits("1.0"), "float_interval.rs remove_below/remove_above: self.min - 1.0"))
+    need(FI, r"self\.min \+ \(self\.max - self\.min\) / 2\.0", "mid: (max-min)/2.0")
+    need(FI, r"self\.max - 1\.0\s*\} else if self\.max\.is_infinite\(\) \{[^}]*self\.min \+ 1\.0", "mid: infinite-bound fallbacks +-1.0")
+    out.append(("fi_mid_div_bits", f64bits("2.0"), "float_interval.rs mid: / 2.0"))
+    out.append(("fi_mid_one_bits", f64bits("1.0"), "float_interval.rs mid: max - 1.0 / min + 1.0"))
+    v = src(VW)
+    n = len(re.findall(r"let tolerance = interval\.step / 2\.0;", v))
+    if n != 4:
+        sys.stderr.write("gen_consts: expected 4 `interval.step / 2.0` in views.rs, found %d\n" % n); sys.exit(1)
+    out.append(("ctx_tol_div_bits", f64bits("2.0"), "views.rs try_set_min/max: interval.step / 2.0"))
+    ms = re.findall(r"let abs_precision_tolerance = " + F + r" \* interval\.step;", v)
+    if len(ms) != 2 or ms[0] != ms[1]:
+        sys.stderr.write("gen_consts: abs_precision_tolerance factor: %r\n" % (ms,)); sys.exit(1)
+    out.append(("ctx_abs_tol_factor_bits", f64bits(ms[0]), "views.rs abs_precision_tolerance = %s * step" % ms[0]))
+    ms = re.findall(r"let rel_precision_tolerance = interval\.(?:max|min)\.abs\(\) \* " + F + ";", v)
+    if len(ms) != 2 or ms[0] != ms[1]:
+        sys.stderr.write("gen_consts: rel_precision_tolerance factor: %r\n" % (ms,)); sys.exit(1)
+    out.append(("ctx_rel_tol_factor_bits", f64bits(ms[0]), "views.rs rel_precision_tolerance = |bound| * %s" % ms[0]))
+    need(UL, r"if value == 0\.0 \{\s*f64::EPSILON", "ulp(0) = EPSILON")
+    need(UL, r"0x8000_0000_0000_0001u64", "prev_float(0) bits")
+    out.append(("ulp_prev_of_zero_bits", 0x8000000000000001, "ulp_utils.rs prev_float(0.0) bits"))
+    return out
+
 def main():
     defs = []
     m = need("src/variables/domain/sparse_set.rs", r"pub const MAX_SPARSE_SET_DOMAIN_SIZE:\s*u64\s*=\s*([\d_]+);", "MAX_SPARSE_SET_DOMAIN_SIZE")
@@ -25,6 +89,9 @@ def main():
     body = "(* GENERATED by tools/gen_consts.py from /repo — do not edit. *)\nRequire Import ZArith.\nOpen Scope Z_scope.\n"
     for name, val, where in defs:
         body += "Definition %s : Z := %d. (* %s *)\n" % (name, val, where)
+    body += "(* f64 literals of the float store as IEEE-754 binary64 bit patterns *)\n"
+    for name, val, where in float_consts():
+        body += "Definition %s : Z := 0x%016x. (* %s *)\n" % (name, val, where)
     old = open(OUT).read() if os.path.exists(OUT) else None
     if old != body:
         os.makedirs(os.path.dirname(OUT), exist_ok=True)
